@@ -71,15 +71,145 @@ def run_one(chk, r, seed, pid="C06", make_inv=make_invariant, grammar_kw=None):
     return res
 
 
+def isolation_work(item):
+    """Several live trees, as the prune-regraft sampler holds them: one extracted subtree object grafted onto two copies of
+    the remaining tree; then every in-place edit inside the grafted region of the first copy.  The second copy, the subtree
+    object and the pruned tree must not change, and the second copy must still equal its fresh build."""
+    n, si, seed = item
+    from phyclone.tree import Tree
+
+    data = oracle.make_data(n, dims=1, grid=3, kind="generic", seed=seed, outlier_prob=0.2)
+    s = oracle.all_states(n - 1, outliers=True)[si]
+    spare = data[n - 1]
+    td = _td()
+    res = {"item": item, "n": 0, "problems": []}
+
+    def problem(what, ctx):
+        if len(res["problems"]) < 3:
+            res["problems"].append({"what": what, "ctx": ctx})
+
+    def snapshot(trees):
+        return [(editbfs.canon(t), tuple(sorted(d.idx for d in t.data))) for t in trees]
+
+    def watch(names, trees, before, ctx):
+        for nm, t, b in zip(names, trees, before):
+            try:
+                now = (editbfs.canon(t), tuple(sorted(d.idx for d in t.data)))
+            except Exception as e:
+                problem("%s can no longer be read after an in-place edit of another tree: %s" % (nm, type(e).__name__), ctx)
+                continue
+            if now != b:
+                problem("%s changed when another tree was edited in place" % nm, ctx)
+                continue
+            wf = wellformed(t, set(b[1]))
+            if wf:
+                problem("%s malformed after an in-place edit of another tree: %s" % (nm, wf[0]), ctx)
+                continue
+            fp = editbfs.fresh_equal_problems(t, data, td, 1e-9)
+            if fp:
+                problem("%s after an in-place edit of another tree: %s" % (nm, fp[0]), ctx)
+
+    try:
+        base0 = oracle.build(s, data)
+        names = list(base0.nodes)
+        for v in names:
+            probe = base0.copy()
+            sub_probe = probe.get_subtree(v)
+            probe.remove_subtree(sub_probe)
+            parents = [None] + list(probe.nodes)
+            sub_idx = {d.idx for d in sub_probe.data}
+            for variant in ("extracted", "scratch"):
+                for p1 in parents:
+                    for p2 in parents:
+                        pr = base0.copy()
+                        sub = pr.get_subtree(v)
+                        pr.remove_subtree(sub)
+                        if variant == "scratch":
+                            # a subtree built from nothing, as the subtree sampler's particles hand it over: its names clash with the host's
+                            new = Tree(sub.grid_size)
+                            prev = []
+                            for dp in sorted(sub.data, key=lambda d: d.idx):
+                                prev = [new.create_root_node(children=prev, data=[dp])]
+                            sub = new
+                        ctx = {"tree": oracle.fmt_state(s), "subtree_root": repr(v), "subtree": variant, "first_parent": repr(p1), "second_parent": repr(p2)}
+                        before_sub = snapshot([sub])
+                        A = pr.copy()
+                        A.add_subtree(sub, parent=p1)
+                        A.update()
+                        watch(["the subtree object"], [sub], before_sub, dict(ctx, edit="graft onto the first copy"))
+                        before_sub = snapshot([sub])
+                        B = pr.copy()
+                        B.add_subtree(sub, parent=p2)
+                        B.update()
+                        res["n"] += 2
+                        watch(["the subtree object"], [sub], before_sub, dict(ctx, edit="graft onto the second copy"))
+                        live_names = ["the second grafted copy", "the subtree object", "the pruned tree"]
+                        live = [B, sub, pr]
+                        before = snapshot(live)
+                        grafted = [nm for nm in A.nodes if {d.idx for d in A._data[nm]} <= sub_idx and A._data[nm]]
+                        for g_ in grafted:
+                            A.add_data_point_to_node(spare, g_)
+                            res["n"] += 1
+                            watch(live_names, live, before, dict(ctx, edit="add a data point to grafted clone %r of the first copy" % (g_,)))
+                            A.remove_data_point_from_node(spare, g_)
+                            res["n"] += 1
+                            watch(live_names, live, before, dict(ctx, edit="remove it again"))
+                            if len(A._data[g_]) > 1:
+                                dp = A._data[g_][0]
+                                A.remove_data_point_from_node(dp, g_)
+                                A.add_data_point_to_outliers(dp)
+                                res["n"] += 1
+                                watch(live_names, live, before, dict(ctx, edit="move a data point of grafted clone %r to the outliers" % (g_,)))
+                                A.remove_data_point_from_outliers(dp)
+                                A.add_data_point_to_node(dp, g_)
+                        A.relabel_nodes()
+                        res["n"] += 1
+                        watch(live_names, live, before, dict(ctx, edit="relabel the first copy"))
+                        fp = editbfs.fresh_equal_problems(A, data, td, 1e-9)
+                        if fp:
+                            problem("the edited copy itself: %s" % fp[0], ctx)
+                        if len(res["problems"]) >= 3:
+                            return res
+    except Exception as e:
+        problem("raised %s: %s" % (type(e).__name__, str(e)[:150]), {"tree": oracle.fmt_state(s)})
+    return res
+
+
+def isolation(chk, tier, seed):
+    from mc.harness import pool_imap
+
+    items = []
+    for n in ((4,) if tier == "quick" else (4, 5)):
+        ns = len(oracle.all_states(n - 1, outliers=True))
+        items += [(n, si, seed) for si in range(ns)]
+    if tier == "quick":
+        ns = len(oracle.all_states(4, outliers=True))
+        items += [(5, si, seed) for si in range(0, ns, 5)]
+    tot = 0
+    for r in pool_imap(isolation_work, items, chunksize=2):
+        tot += r["n"]
+        chk.transitions += r["n"]
+        chk.traces_validated += r["n"]
+        chk.n_states_extra += 1
+        chk.n_nontrivial_extra += 1 if r["n"] else 0
+        for pr in r["problems"][:2]:
+            chk.violation({"sub": "isolation", "what": pr["what"].split(":")[0][:60], "n": r["item"][0]}, {"problem": pr["what"], "context": pr["ctx"]},
+                          {"isolation": list(r["item"])})
+    chk.note("isolation_edits_checked", tot)
+
+
 def main(tier, seed):
     chk = Check("C06", tier, seed)
     chk.rule = ("BFS from the empty tree over the edit grammar (SMC placements, data-point moves incl. outliers, prune-regraft to every "
                 "attachment point, subtree cycle with 4 replacement forests, relabel, copy, dict and pickle round-trips); states de-duplicated by a "
                 "canonical form of all slots; non-trivial = every state but the empty tree; invariant in every state: per-clone log_p/log_r, root "
-                "vector, log_p, log_p_one and the fused variant equal a fresh build")
+                "vector, log_p, log_p_one and the fused variant equal a fresh build; isolation part: every tree over <=3 (4) data points, every subtree, "
+                "extracted or rebuilt from nothing, grafted onto two copies of the pruned tree at every pair of parents, then every in-place edit of the first copy's "
+                "grafted clones: the second copy, the subtree object and the pruned tree stay unchanged and equal to their fresh builds")
     chk.assumptions = ["canonical form rounds arrays to 1e-9", "tolerance 1e-9*(1+depth)", "data from the alphabet; n<=4"]
     for r in runs(tier, seed):
         run_one(chk, r, seed)
+    isolation(chk, tier, seed)
     return chk.finish()
 
 
@@ -90,6 +220,10 @@ def _tup(x):
 def replay(path, make_inv=make_invariant):
     body = json.load(open(path))
     rp = body["replay"]
+    if "isolation" in rp:
+        r = isolation_work(tuple(rp["isolation"]))
+        print(r["problems"])
+        return 1 if r["problems"] else 0
     r = rp["search"]
     data = oracle.make_data(r["n"], dims=r["dims"], grid=r["grid"], kind=r["kind"], seed=rp.get("seed", 0), outlier_prob=r.get("outlier", 0.0))
     g = editbfs.Grammar(data, moves_on_full_only=bool(r.get("full_only")))
